@@ -10,6 +10,7 @@ import xml.dom
 from hypothesis import strategies as st
 
 import cssutils
+import cssutils.settings
 from vlib.runner import VERIF, HarnessAbort, Sub, Violation, frame_sig
 
 PROPERTY = 'C12'
@@ -19,7 +20,7 @@ RULE = (
     'that raise / return garbage, parseFile on a missing file, rejected and accepted DOM edits, serialisation under '
     'changed and restored preferences, csscombine, profile add/remove pairs, reuse of one parser object, a changed global '
     'error mode between constructing and using a parser; explicit configuration steps (preference assignment, addProfile, '
-    'defaultProfiles, global error mode) are part of the configuration, not of the hidden state. Each example runs twice in '
+    'defaultProfiles, global error mode, cssutils.settings.set) are part of the configuration, not of the hidden state; a parser object created before such a step must answer like one created after it. Each example runs twice in '
     'forked children: full history + probe battery versus only the configuration steps + probe battery; the battery '
     '(parse+serialise of 17 reference texts, validity flags, 17 malformed texts through a raising parser with exception type, '
     'message, line and column as the result, parseStyle, one DOM edit that must raise and one that must '
@@ -45,6 +46,8 @@ TEXTS = ['a { color: red }', '@media print and (min-width: 10px), tv { a { top: 
 MALFORMED = ['a { color: red', 'a { (x) y; b: c }', '@media print and { a {} }', 'a,,b { c: d }', '@import;', 'a { b: rgb(1,2 }',
              '@charset ', 'a { x: y !important @foo }', 'a:not(a b) {}', '@page :x: {}', 'screen and, print', '@media {a{}}',
              'a { b: "c', 'a { b: url(', '}{', '@namespace p "u"; q|a {}', 'a { color: red } @import "late.css";']
+DX_TEXTS = ['a {filter: progid:DXImageTransform.Microsoft.gradient(startColorStr=#111, EndColorStr=#222)}',
+            'a { top: 0; filter: progid:DXImageTransform.Microsoft.Alpha(opacity=50); left: 0 }']
 PREFS = [('keepComments', False), ('omitLeadingZero', True), ('resolveVariables', False), ('indent', '\t'), ('keepEmptyRules', True),
          ('defaultAtKeyword', True), ('minimizeColorHash', False), ('keepAllProperties', False), ('lineSeparator', ''),
          ('indentSpecificities', True), ('indentSpecificities', True)]
@@ -98,6 +101,9 @@ op = st.one_of(
     st.tuples(st.just('cfg:addProfile')),
     st.tuples(st.just('cfg:defaultProfiles'), st.sampled_from([None, 'CSS Level 2.1', 'CSS Color Module Level 3'])),
     st.tuples(st.just('cfg:mode'), st.booleans()),
+    # a configuration step between creating a parser object and using it: the old object must answer like a new one
+    st.tuples(st.just('cfg:across'), st.sampled_from(['dx', 'dx', 'pref', 'addProfile', 'defaultProfiles']), st.integers(0, len(PREFS) - 1),
+              st.sampled_from(TEXTS[:6] + DX_TEXTS + DX_TEXTS)),
 )
 strategy = st.lists(op, min_size=1, max_size=8).map(lambda ops: {'ops': [list(o) for o in ops]})
 
@@ -291,6 +297,28 @@ def run_op(o, events):
         cssutils.profile.defaultProfiles = o[1]
     elif kind == 'cfg:mode':
         cssutils.log.raiseExceptions = o[1]
+    elif kind == 'cfg:across':
+        p_old = cssutils.CSSParser(fetcher=lambda u: (None, ''))
+        guarded_parse(lambda: p_old.parseString('b {top: 0}').cssText, 'parser before the configuration step')
+        if o[1] == 'dx':
+            cssutils.settings.set('DXImageTransform.Microsoft', True)
+        elif o[1] == 'pref':
+            name, val = PREFS[o[2]]
+            setattr(cssutils.ser.prefs, name, val)
+        elif o[1] == 'addProfile':
+            if PROFILE[0] not in cssutils.profile.profiles:
+                cssutils.profile.addProfile(*PROFILE)
+        else:
+            cssutils.profile.defaultProfiles = 'CSS Level 2.1'
+        p_new = cssutils.CSSParser(fetcher=lambda u: (None, ''))
+        outs = []
+        for p in (p_old, p_new):
+            res, exc = guarded_parse(lambda: (lambda sh: (sh.cssText, [r.valid for r in sh.cssRules if hasattr(r, 'valid')]))(p.parseString(o[3])),
+                                     'parser across a configuration step')
+            outs.append((res, type(exc).__name__ if exc else None))
+        events.append('across:' + o[1])
+        if outs[0] != outs[1]:
+            raise Leak(f'across:parser-created-before-a-configuration-step-differs|{o[1]} then {o[3]!r}: old {outs[0]!r} new {outs[1]!r}'[:900])
     else:
         raise HarnessAbort('unknown op ' + kind)
 
